@@ -48,31 +48,30 @@ theorem clearPhase_eq (w : World) (old : List Item) (hw : w.storage = old.map so
 
 /-- **master lemma**: for all duplicate-free `f`, `t` and any world whose storage holds the items keyed
 `f`, with an empty log -/
-theorem applyDiff_summary (f t : List Key) (old : List Item) (hf : f.Nodup) (ht : t.Nodup)
+theorem applyDiff_summary (D : List Key → List Key → Diff) (hD : DiffLike D)
+    (f t : List Key) (old : List Item) (hf : f.Nodup) (ht : t.Nodup)
     (hold : old.map (·.key) = f) (bs : Nat) (marker : NodeId) (w : World)
     (hw : w.storage = old.map some) (hlog : w.log = {}) :
-    Summary f t old (applyDiff bs marker (diff f t) t w) := by
+    Summary f t old (applyDiff bs marker (D f t) t w) := by
   by_cases hte : t = []
   · subst hte
     by_cases hfe : f = []
     · subst hfe
       have ho : old = [] := by cases old <;> simp_all
       subst ho
-      have hd : diff [] [] = {} := by simp [diff]
-      have : applyDiff bs marker (diff [] []) [] w = w := by
+      have hd : D [] [] = {} := hD.nil_nil
+      have : applyDiff bs marker (D [] []) [] w = w := by
         rw [hd]
         simp [applyDiff, unpackMoves, unpackLoop, hw]
         cases w; simp_all
       rw [this]
       constructor <;> simp [hw, hlog, somes]
-    · have hd : diff f [] = { clear := true } := by
-        have : f.isEmpty = false := by cases f <;> simp_all
-        simp [diff, this]
-      have : applyDiff bs marker (diff f []) [] w = clearPhase w := by
+    · have hd : D f [] = { clear := true } := hD.to_nil f hfe
+      have : applyDiff bs marker (D f []) [] w = clearPhase w := by
         rw [hd]; simp [applyDiff]
       rw [this, clearPhase_eq w old hw]
       constructor <;> simp [hlog, somes, hold, hf]
-  · obtain ⟨rem, U, ads, c, hn, _, heq⟩ := applyDiff_spec f t old hf ht hold hte bs marker w hw
+  · obtain ⟨rem, U, ads, c, hn, _, heq⟩ := applyDiff_spec D hD f t old hf ht hold hte bs marker w hw
     rw [heq, c.pipeline_closed hn bs marker w hw]
     obtain ⟨h1, h2, h3⟩ := c.final_storage bs w.next
     refine ⟨h1, h2, ?_, ?_, ?_, ?_, ?_, ?_, ?_, ?_⟩
